@@ -10,6 +10,7 @@ import (
 	"log/slog"
 	"os"
 	"path/filepath"
+	"sort"
 	"strings"
 	"sync"
 	"testing"
@@ -21,13 +22,16 @@ import (
 
 	"github.com/regclient/regclient"
 	"github.com/regclient/regclient/config"
+	"github.com/regclient/regclient/scheme"
 	"github.com/regclient/regclient/scheme/reg"
 	"github.com/regclient/regclient/types"
 	"github.com/regclient/regclient/types/descriptor"
 	"github.com/regclient/regclient/types/manifest"
+	"github.com/regclient/regclient/types/platform"
 	"github.com/regclient/regclient/types/ref"
 	"github.com/regclient/regclient/zz_verif/evid"
 	"github.com/regclient/regclient/zz_verif/rcutil"
+	rm "github.com/regclient/regclient/zz_verif/regmodel"
 )
 
 const prop = "C11"
@@ -104,25 +108,60 @@ func buildClient(c *Case, w *world, logw io.Writer) (*regclient.RegClient, func(
 		conf.Opts = append(conf.Opts, regclient.WithSlog(slog.New(slog.NewTextHandler(logw, &slog.HandlerOptions{Level: types.LevelTrace}))))
 	}
 	auths := map[string]map[string]string{}
+	helper := map[string]string{} // host name the helper is asked for -> JSON answer
+	helperPath := ""
+	dir := ""
+	cleanup := func() {}
+	needDir := func() error {
+		if dir != "" {
+			return nil
+		}
+		d, err := os.MkdirTemp("", "c11-cfg-")
+		if err != nil {
+			return err
+		}
+		dir = d
+		cleanup = func() { os.RemoveAll(d) }
+		helperPath = filepath.Join(dir, "docker-credential-c11")
+		return nil
+	}
+	if c.DefTLS != "" || c.DefRepoAuth || c.DefHelper {
+		// defaults for hosts that do not say; no login in it ("configured for one registry" is the domain),
+		// at most a credential helper, which is asked per host
+		def := config.Host{TLS: tlsConf(c.DefTLS), RepoAuth: c.DefRepoAuth}
+		if c.DefHelper {
+			if err := needDir(); err != nil {
+				return nil, nil, err
+			}
+			def.CredHelper = helperPath
+		}
+		conf.Opts = append(conf.Opts, regclient.WithConfigHostDefault(def))
+	}
 	for i := range c.Hosts {
 		h := &c.Hosts[i]
 		if h.Cfg == "" {
 			continue
 		}
 		a := c.account(i)
-		ch := config.Host{Name: c.refName(i), RepoAuth: h.RepoAuth, Priority: uint(h.Priority)}
+		ch := config.Host{Name: c.refName(i), RepoAuth: h.RepoAuth, Priority: uint(h.Priority), PathPrefix: h.PathPrefix}
+		if h.NoHead {
+			ch.APIOpts = map[string]string{"disableHead": "true"}
+		}
 		for _, m := range h.Mirrors {
 			if w.validHost(m) {
 				ch.Mirrors = append(ch.Mirrors, c.refName(m))
+				if h.DupMirror {
+					ch.Mirrors = append(ch.Mirrors, c.refName(m))
+				}
 			}
 		}
 		switch h.Cfg {
-		case "host":
+		case "host", "helper":
 			ch.TLS = tlsConf(h.TLS)
 			if ch.Name != h.Name && !c.isHub(i) {
 				ch.Hostname = h.Name
 			}
-			if a != nil {
+			if a != nil && h.Cfg == "host" {
 				switch h.CredKind {
 				case "userpass":
 					ch.User, ch.Pass = a.User, a.Pass
@@ -130,14 +169,55 @@ func buildClient(c *Case, w *world, logw io.Writer) (*regclient.RegClient, func(
 					ch.Token = a.IDToken
 				case "both":
 					ch.User, ch.Pass, ch.Token = a.User, a.Pass, a.IDToken
+				case "useronly":
+					ch.User = a.User
 				}
+				if h.AlsoDocker && h.CfgName == "" && (h.CredKind == "userpass" || h.CredKind == "token" || h.CredKind == "both") {
+					form := map[string]string{"userpass": "auth", "token": "idtoken", "both": "idtoken+auth"}[h.CredKind]
+					key := "https://" + h.Name
+					if c.isHub(i) {
+						key = "https://index.docker.io/v1/"
+					}
+					auths[key] = dockerEntry(a, form)
+				}
+			}
+			if a != nil && h.Cfg == "helper" {
+				if err := needDir(); err != nil {
+					return nil, nil, err
+				}
+				if !c.DefHelper {
+					ch.CredHelper = helperPath
+				}
+				ans, _ := json.Marshal(map[string]string{"ServerURL": h.Name, "Username": a.User, "Secret": a.Pass})
+				if h.CredKind == "token" {
+					ans, _ = json.Marshal(map[string]string{"ServerURL": h.Name, "Username": "<token>", "Secret": a.IDToken})
+				}
+				asked := h.Name // the helper is asked for CredHost, else Hostname
+				if c.isHub(i) {
+					asked = "https://index.docker.io/v1/"
+				}
+				helper[asked] = string(ans)
 			}
 			hosts = append(hosts, ch)
 		case "docker":
 			if a != nil {
 				auths[c.dockerKey(i)] = dockerEntry(a, h.DockerForm)
+				if h.DupKey {
+					k2 := "https://" + h.Name + "/"
+					if c.isHub(i) {
+						k2 = hubDNS
+						if c.dockerKey(i) == hubDNS {
+							k2 = "docker.io"
+						}
+					} else if c.dockerKey(i) == k2 {
+						k2 = h.Name
+					}
+					if c.isHub(i) || (h.Key != "http" && h.Key != "http-slash") {
+						auths[k2] = dockerEntry(a, h.DockerForm)
+					}
+				}
 			}
-			if ch.RepoAuth || len(ch.Mirrors) > 0 || ch.Priority != 0 {
+			if ch.RepoAuth || len(ch.Mirrors) > 0 || ch.Priority != 0 || ch.PathPrefix != "" || h.NoHead {
 				hosts = append(hosts, ch)
 			}
 		}
@@ -150,20 +230,45 @@ func buildClient(c *Case, w *world, logw io.Writer) (*regclient.RegClient, func(
 	if len(hosts) > 0 {
 		conf.Opts = append(conf.Opts, regclient.WithConfigHost(hosts...))
 	}
-	cleanup := func() {}
-	if len(auths) > 0 {
-		dir, err := os.MkdirTemp("", "c11-docker-")
-		if err != nil {
+	if len(helper) > 0 || c.DefHelper {
+		// a credential helper program: reads the host from stdin, answers with that host's login only
+		var sb strings.Builder
+		sb.WriteString("#!/bin/sh\nh=$(cat)\ncase \"$h\" in\n")
+		keys := make([]string, 0, len(helper))
+		for k := range helper {
+			keys = append(keys, k)
+		}
+		sort.Strings(keys)
+		for _, k := range keys {
+			fmt.Fprintf(&sb, "  '%s') printf '%%s\\n' '%s' ;;\n", k, helper[k])
+		}
+		sb.WriteString("  *) echo 'credentials not found in native keychain'; exit 1 ;;\nesac\n")
+		if err := os.WriteFile(helperPath, []byte(sb.String()), 0o700); err != nil {
+			cleanup()
 			return nil, nil, err
 		}
-		cleanup = func() { os.RemoveAll(dir) }
+	}
+	if len(auths) > 0 {
+		if err := needDir(); err != nil {
+			return nil, nil, err
+		}
 		b, _ := json.Marshal(map[string]any{"auths": auths})
 		fn := filepath.Join(dir, "config.json")
 		if err := os.WriteFile(fn, b, 0o600); err != nil {
 			cleanup()
 			return nil, nil, err
 		}
-		conf.Opts = append(conf.Opts, regclient.WithDockerCredsFile(fn))
+		if c.DockerEnv {
+			// WithDockerCreds looks in $DOCKER_CONFIG; the option runs inside rcutil.New below (cases of one process run one after the other)
+			os.Setenv("DOCKER_CONFIG", dir)
+			defer os.Unsetenv("DOCKER_CONFIG")
+			conf.Opts = append(conf.Opts, regclient.WithDockerCreds())
+		} else {
+			conf.Opts = append(conf.Opts, regclient.WithDockerCredsFile(fn))
+		}
+	}
+	if c.Cache {
+		conf.RegOpts = append(conf.RegOpts, reg.WithCache(time.Minute, 50))
 	}
 	if c.Chunked {
 		conf.RegOpts = append(conf.RegOpts, reg.WithBlobSize(24, 40))
@@ -201,11 +306,22 @@ func runOp(ctx context.Context, rc *regclient.RegClient, c *Case, o Op) error {
 		return fmt.Errorf("harness-ref: %w", err)
 	}
 	rMan := rTag
-	if o.Digest {
+	switch {
+	case o.Form == 1:
+		rMan, err = mkRef(base + ":" + tag + "@" + ct.ManDig[tag])
+	case o.Form == 2:
+		rMan, err = mkRef(base) // default tag (latest)
+	case o.Digest:
 		rMan, err = mkRef(base + "@" + ct.ManDig[tag])
-		if err != nil {
-			return fmt.Errorf("harness-ref: %w", err)
+	}
+	if err != nil {
+		return fmt.Errorf("harness-ref: %w", err)
+	}
+	tgtRepoRef := func(suffix string) (ref.Ref, error) {
+		if c.isReg(o.Tgt) && o.Tgt != o.Reg {
+			return mkRef(c.refName(o.Tgt) + "/" + repoNames[o.TgtRepo&1] + suffix)
 		}
+		return mkRef(c.refName(o.Reg) + "/" + repoNames[1-repo] + suffix)
 	}
 	bi := o.Blob & 3
 	if bi == 3 && ct.ExtPath == "" {
@@ -213,17 +329,68 @@ func runOp(ctx context.Context, rc *regclient.RegClient, c *Case, o Op) error {
 	}
 	bdesc := descriptor.Descriptor{MediaType: mtOCILayer, Digest: digest.Digest(ct.Digs[bi]), Size: int64(len(ct.Blobs[bi]))}
 	if bi == 3 {
-		e := c.extHost()
 		bdesc.MediaType = mtForeign
-		bdesc.URLs = []string{c.naturalScheme(e) + "://" + c.Hosts[e].Name + ct.ExtPath}
+		bdesc.URLs = c.extURLs(ct)
 	}
 	switch o.Kind {
 	case "ping":
 		_, err = rc.Ping(ctx, rTag)
 	case "mget":
-		_, err = rc.ManifestGet(ctx, rMan)
+		if o.Flags&1 != 0 {
+			_, err = rc.ManifestGet(ctx, rMan, regclient.WithManifestPlatform(platform.Platform{OS: "linux", Architecture: "arm64"}))
+		} else {
+			_, err = rc.ManifestGet(ctx, rMan)
+		}
 	case "mhead":
-		_, err = rc.ManifestHead(ctx, rMan)
+		if o.Flags&1 != 0 {
+			_, err = rc.ManifestHead(ctx, rMan, regclient.WithManifestRequireDigest())
+		} else {
+			_, err = rc.ManifestHead(ctx, rMan)
+		}
+	case "tagdel":
+		var rd ref.Ref
+		rd, err = mkRef(base + ":a3")
+		if err != nil {
+			return fmt.Errorf("harness-ref: %w", err)
+		}
+		err = rc.TagDelete(ctx, rd)
+	case "imgconfig":
+		_, err = rc.ImageConfig(ctx, rMan)
+	case "export":
+		err = rc.ImageExport(ctx, rMan, io.Discard)
+	case "bcopy":
+		var rt ref.Ref
+		rt, err = tgtRepoRef(":x")
+		if err != nil {
+			return fmt.Errorf("harness-ref: %w", err)
+		}
+		err = rc.BlobCopy(ctx, rTag, rt, bdesc)
+	case "refsrc":
+		var rs, src ref.Ref
+		rs, err = mkRef(base + "@" + ct.ManDig["v1"])
+		if err != nil {
+			return fmt.Errorf("harness-ref: %w", err)
+		}
+		src, err = tgtRepoRef("")
+		if err != nil {
+			return fmt.Errorf("harness-ref: %w", err)
+		}
+		_, err = rc.ReferrerList(ctx, rs, scheme.WithReferrerSource(src))
+	case "mputsub":
+		ec := descJSON(mtEmpty, "sha256:44136fa355b3678a1146ad16f7e8649e94fb4fc21fe77e8310c060f61caaff8a", 2, `,"data":"e30="`)
+		body := fmt.Sprintf(`{"schemaVersion":2,"mediaType":%q,"artifactType":%q,"config":%s,"layers":[%s],"subject":%s,"annotations":{"c11":"sub-%d"}}`, mtOCIManifest, sigType+".put", ec,
+			descJSON(mtOCILayer, ct.Digs[1], len(ct.Blobs[1]), ""), descJSON(mtOCIManifest, ct.ManDig["v1"], len(ct.Man["v1"]), ""), o.N)
+		var m manifest.Manifest
+		m, err = manifest.New(manifest.WithRaw([]byte(body)))
+		if err != nil {
+			return fmt.Errorf("harness-manifest: %w", err)
+		}
+		var rp ref.Ref
+		rp, err = mkRef(base + "@" + m.GetDescriptor().Digest.String())
+		if err != nil {
+			return fmt.Errorf("harness-ref: %w", err)
+		}
+		err = rc.ManifestPut(ctx, rp, m)
 	case "mput":
 		body := fmt.Sprintf(`{"schemaVersion":2,"mediaType":%q,"config":%s,"layers":[%s],"annotations":{"c11":"put-%d"}}`, mtOCIManifest,
 			descJSON(mtOCIConfig, ct.Digs[0], len(ct.Blobs[0]), ""), descJSON(mtOCILayer, ct.Digs[1], len(ct.Blobs[1]), ""), o.N)
@@ -244,7 +411,11 @@ func runOp(ctx context.Context, rc *regclient.RegClient, c *Case, o Op) error {
 		if err != nil {
 			return fmt.Errorf("harness-ref: %w", err)
 		}
-		err = rc.ManifestDelete(ctx, rd)
+		if o.Flags&1 != 0 {
+			err = rc.ManifestDelete(ctx, rd, regclient.WithManifestCheckReferrers())
+		} else {
+			err = rc.ManifestDelete(ctx, rd)
+		}
 	case "bget":
 		var br interface {
 			io.Reader
@@ -262,26 +433,20 @@ func runOp(ctx context.Context, rc *regclient.RegClient, c *Case, o Op) error {
 			_ = br.Close()
 		}
 	case "bput":
-		var data []byte
-		switch o.N % 3 {
-		case 0:
-			data = []byte(fmt.Sprintf("c11 up %d %d", c.Salt, o.N))
-		case 1:
-			data = []byte(fmt.Sprintf("c11 upload salt=%d n=%d %s", c.Salt, o.N, strings.Repeat("0123456789", 9)))
-		}
+		// sizes around the chunk size (24) and the monolithic limit (40) of the chunked configuration
+		size := []int{12, 109, 0, 23, 24, 25, 40, 41, 48}[o.N%9]
+		data := []byte(fmt.Sprintf("c11 up %d %d ", c.Salt, o.N) + strings.Repeat("0123456789", 12))[:size]
 		d := descriptor.Descriptor{Digest: digest.FromBytes(data), Size: int64(len(data))}
-		if o.N >= 3 && len(data) > 0 {
+		if o.Flags&2 != 0 {
+			d.Digest = digest.SHA512.FromBytes(data)
+		}
+		if o.Flags&1 != 0 && len(data) > 0 {
 			d = descriptor.Descriptor{} // unknown digest and size: chunked path
 		}
 		_, err = rc.BlobPut(ctx, rTag, d, bytes.NewReader(data))
 	case "bmount":
 		var rt ref.Ref
-		if c.isReg(o.Tgt) && o.Tgt != o.Reg {
-			// source and target on different registries
-			rt, err = mkRef(c.refName(o.Tgt) + "/" + repoNames[o.TgtRepo&1] + ":mnt")
-		} else {
-			rt, err = mkRef(c.refName(o.Reg) + "/" + repoNames[1-repo] + ":mnt")
-		}
+		rt, err = tgtRepoRef(":mnt") // source and target on different registries, or two repositories of one
 		if err != nil {
 			return fmt.Errorf("harness-ref: %w", err)
 		}
@@ -290,7 +455,11 @@ func runOp(ctx context.Context, rc *regclient.RegClient, c *Case, o Op) error {
 	case "bdel":
 		err = rc.BlobDelete(ctx, rTag, bdesc)
 	case "tags":
-		_, err = rc.TagList(ctx, rTag)
+		if o.Flags&1 != 0 {
+			_, err = rc.TagList(ctx, rTag, scheme.WithTagLimit(2))
+		} else {
+			_, err = rc.TagList(ctx, rTag)
+		}
 	case "referrers":
 		var rs ref.Ref
 		rs, err = mkRef(base + "@" + ct.ManDig["v1"])
@@ -301,17 +470,37 @@ func runOp(ctx context.Context, rc *regclient.RegClient, c *Case, o Op) error {
 			_, err = rc.ReferrerList(ctx, rs)
 		}
 	case "catalog":
-		_, err = rc.RepoList(ctx, c.refName(o.Reg))
+		if o.Flags&1 != 0 {
+			_, err = rc.RepoList(ctx, c.refName(o.Reg), scheme.WithRepoLimit(1))
+		} else {
+			_, err = rc.RepoList(ctx, c.refName(o.Reg))
+		}
 	case "copy":
 		if !c.isReg(o.Tgt) {
 			return nil
 		}
 		var rt ref.Ref
-		rt, err = mkRef(c.refName(o.Tgt) + "/" + repoNames[o.TgtRepo&1] + ":copied")
+		if o.Flags&32 != 0 {
+			// the target is an OCI layout directory: nothing of any registry's login belongs there
+			dir, derr := os.MkdirTemp("", "c11-layout-")
+			if derr != nil {
+				return fmt.Errorf("harness-tmp: %w", derr)
+			}
+			defer os.RemoveAll(dir)
+			rt, err = mkRef("ocidir://" + dir + ":copied")
+		} else {
+			rt, err = mkRef(c.refName(o.Tgt) + "/" + repoNames[o.TgtRepo&1] + ":copied")
+		}
 		if err != nil {
 			return fmt.Errorf("harness-ref: %w", err)
 		}
 		var opts []regclient.ImageOpts
+		if o.Flags&8 != 0 {
+			opts = append(opts, regclient.ImageWithFastCheck())
+		}
+		if o.Flags&16 != 0 {
+			opts = append(opts, regclient.ImageWithForceRecursive())
+		}
 		if o.Flags&1 != 0 {
 			opts = append(opts, regclient.ImageWithIncludeExternal())
 		}
@@ -359,17 +548,67 @@ func run(c *Case) (*runResult, error) {
 	defer cleanup()
 	ctx, cancel := context.WithTimeout(context.Background(), 30*time.Second)
 	defer cancel()
-	res := &runResult{w: w}
-	for _, o := range c.Ops {
-		if ctx.Err() != nil {
-			res.timedOut = true
-			break
+	res := &runResult{w: w, errs: make([]string, len(c.Ops))}
+	// context state per operation: live, cancelled before the call, or cancelled when its k-th request arrives
+	type opCtx struct {
+		start  int64
+		at     int64
+		cancel context.CancelFunc
+	}
+	var (
+		mu     sync.Mutex
+		seen   int64
+		active = map[int]*opCtx{}
+	)
+	w.m.OnArrive = func(e *rm.Entry) {
+		mu.Lock()
+		seen++
+		for _, oc := range active {
+			if oc.at > 0 && seen-oc.start >= oc.at {
+				oc.cancel()
+			}
 		}
-		err := runOp(ctx, rc, c, o)
-		res.errs = append(res.errs, errClass(err))
+		mu.Unlock()
+	}
+	var harnessErr error
+	one := func(k int, o Op) {
+		octx, ocancel := context.WithCancel(ctx)
+		defer ocancel()
+		if o.Cancel < 0 {
+			ocancel()
+		}
+		mu.Lock()
+		active[k] = &opCtx{start: seen, at: int64(o.Cancel), cancel: ocancel}
+		mu.Unlock()
+		err := runOp(octx, rc, c, o)
+		mu.Lock()
+		delete(active, k)
+		res.errs[k] = errClass(err)
 		if err != nil && strings.HasPrefix(errClass(err), "harness") {
-			return nil, err
+			harnessErr = err
 		}
+		mu.Unlock()
+	}
+	if c.Parallel {
+		var wg sync.WaitGroup
+		for k, o := range c.Ops {
+			wg.Add(1)
+			go func(k int, o Op) {
+				defer wg.Done()
+				one(k, o)
+			}(k, o)
+		}
+		wg.Wait()
+	} else {
+		for k, o := range c.Ops {
+			if ctx.Err() != nil {
+				break
+			}
+			one(k, o)
+		}
+	}
+	if harnessErr != nil {
+		return nil, harnessErr
 	}
 	if ctx.Err() != nil {
 		res.timedOut = true
